@@ -43,6 +43,7 @@ def run(ctx, rep):
     r5(prog, ev, rep)
     if helper:
         r7(prog, ev, rep, helper)
+    r8(prog, ev, rep)
 
 
 # ------------------------------------------------------------------------------------------- roles
@@ -563,6 +564,25 @@ def comparables_never_refs(prog, ev):
     r = Report("tmp")
     r5(prog, ev, r)
     return all(i["status"] == "ok" for i in r.instances)
+
+
+# ------------------------------------------------------------------------------------------- R8
+def r8(prog, ev, rep):
+    rep.rule("C04-R8", "the views comparisons read are total for the reference document type: `impl Queryable for serde_json::Value` "
+             "answers as_f64 / as_i64 / as_str / as_bool by delegating unconditionally to serde_json's accessor of the same name "
+             "(serde_json's as_f64 answers every number, also u64 beyond i64::MAX)", floor=4)
+    VALT = "serde_json::value::Value"
+    for m in ("as_f64", "as_i64", "as_str", "as_bool"):
+        try:
+            p = prog.impl_method(QT, VALT, m)
+        except Exception:
+            rep.unrecognised("C04-R8", "Value::%s" % m, "-", "impl method not found")
+            continue
+        t = ev.summary(p)
+        ok = t.k == "call" and t.a[0] == "%s::%s" % (VALT, m) and len(t.a) == 2 and t.a[1].k == "param" and t.a[1].a[0] == 0
+        rep.check(ok, "C04-R8", "Value::%s" % m, prog.loc_of(p), "serde_json::Value::%s(self)" % m,
+                  "`<Value as Queryable>::%s` is `%s`, not a plain delegation: some JSON values lose this view (a number that answers "
+                  "neither as_f64 nor as_i64 compares false with everything, itself included)" % (m, str(t)[:200]))
 
 
 # ------------------------------------------------------------------------------------------- R7
